@@ -1,5 +1,5 @@
 (** C17 — statements about [parse_command] and the dispatch table. *)
-From Coq Require Import NArith ZArith List Bool Lia.
+From Coq Require Import NArith ZArith Arith List Bool Lia.
 From Snel Require Import Base.Bytes Model.Tokenizer Model.Parser Model.Command Gen.Params.
 Import ListNotations.
 Open Scope N_scope.
@@ -22,7 +22,8 @@ Proof. intros. apply dispatch_others_handled, kind_of_not_batch. Qed.
 Lemma dispatch_refuted : exists k, In k all_kinds /\ dispatch_handled k = false.
 Proof. exists KBatch. split; [cbn; tauto|apply dispatch_batch_unhandled]. Qed.
 
-(** * The four numeric conversions panic (witnesses replayed on the implementation) *)
+(** * Former panic witnesses (LIMIT 4294967296, OFFSET -1, x = 99999999999999999999, x = 1e309 written
+    out): since 57cd0c4 the conversions are fallible grammar actions and these are plain parse errors *)
 
 Definition txt_limit : bytes :=   (* QUERY e LIMIT 4294967296 *)
   [81;85;69;82;89;32;101;32;76;73;77;73;84;32;52;50;57;52;57;54;55;50;57;54].
@@ -30,50 +31,75 @@ Definition txt_offset : bytes :=  (* QUERY e OFFSET -1 *)
   [81;85;69;82;89;32;101;32;79;70;70;83;69;84;32;45;49].
 Definition txt_int : bytes :=     (* QUERY e WHERE x = 99999999999999999999 *)
   [81;85;69;82;89;32;101;32;87;72;69;82;69;32;120;32;61;32;57;57;57;57;57;57;57;57;57;57;57;57;57;57;57;57;57;57;57;57].
-(** QUERY e WHERE x = 1[0 x 309].0 *)
-Definition txt_float : bytes :=
+Definition txt_float : bytes :=   (* QUERY e WHERE x = 1[0 x 309].0 *)
   [81;85;69;82;89;32;101;32;87;72;69;82;69;32;120;32;61;32;49] ++ repeat 48 309 ++ [46;48].
 
-Lemma panic_refuted :
-  parse_command false txt_limit = PPanic SiteLimit /\
-  parse_command false txt_offset = PPanic SiteOffset /\
-  parse_command false txt_int = PPanic SiteInt /\
-  parse_command false txt_float = PPanic SiteFloat.
+Lemma former_witnesses_rejected :
+  parse_command_cur txt_limit = PErr /\ parse_command_cur txt_offset = PErr /\
+  parse_command_cur txt_int = PErr /\ parse_command_cur txt_float = PErr.
 Proof. repeat split; vm_compute; reflexivity. Qed.
 
-(** the same inputs are plain errors for the repaired grammar *)
-Lemma panic_witnesses_fixed :
-  parse_command true txt_limit = PErr /\ parse_command true txt_offset = PErr /\
-  parse_command true txt_int = PErr /\ parse_command true txt_float = PErr.
-Proof. repeat split; vm_compute; reflexivity. Qed.
+(** the in-range neighbours are accepted: LIMIT 4294967295, x = -9223372036854775808 *)
+Lemma limits_accepted :
+  (exists q, parse_command_cur [81;85;69;82;89;32;101;32;76;73;77;73;84;32;52;50;57;52;57;54;55;50;57;53] = POk (CQuery q)
+             /\ q_limit q = Some 4294967295) /\
+  (exists q, parse_command_cur [81;85;69;82;89;32;101;32;87;72;69;82;69;32;120;32;61;32;45;57;50;50;51;51;55;50;48;51;54;56;53;52;55;55;53;56;48;56]
+             = POk (CQuery q) /\ q_where q = Some (ECmp [120] OpEq (VInt (-9223372036854775808)))).
+Proof. split; eexists; split; vm_compute; reflexivity. Qed.
 
-(** known classes of the conversions: exactly when each one fails *)
-Definition LimitOutOfU32 (neg : bool) (d : bytes) : Prop := neg = true \/ 4294967296 <= digits_val d 0.
-Definition OffsetOutOfU32 (neg : bool) (d : bytes) : Prop := neg = true \/ 4294967296 <= digits_val d 0.
-Definition IntLiteralOutOfI64 (neg : bool) (d : bytes) : Prop :=
-  let v := Z.of_N (digits_val d 0) in
-  ((if neg then - v else v) < - 9223372036854775808 \/ 9223372036854775807 < (if neg then - v else v))%Z.
-Definition FloatLiteralOverflow (d fd : bytes) : Prop := float_overflows d fd = true.
-
-Lemma conv_u32_panics_iff : forall site neg d,
-  conv_u32 false site neg d = Panic site <-> (neg = true \/ 4294967296 <= digits_val d 0).
+(** * STORE: a terminated string literal is skipped by the brace scan (fced25a) *)
+Lemma json_str_end_clean : forall s r,
+  forallb (fun c => negb (c =? 34) && negb (c =? 92)) s = true -> json_str_end (s ++ 34 :: r) = Some r.
 Proof.
-  intros site neg d. unfold conv_u32, numfail. destruct neg.
-  - split; auto.
-  - destruct (digits_val d 0 <? 4294967296) eqn:E; split; intro H.
-    + discriminate.
-    + destruct H; [discriminate|]. apply N.ltb_lt in E. lia.
-    + right. apply N.ltb_ge in E. auto.
-    + auto.
+  induction s as [|c s IH]; intros r H; cbn [app json_str_end].
+  - reflexivity.
+  - cbn [forallb] in H. apply andb_prop in H as [Hc H]. apply andb_prop in Hc as [H1 H2].
+    apply negb_true_iff in H1, H2. rewrite H1, H2. auto.
 Qed.
 
-Lemma conv_i64_panics_iff : forall neg d, conv_i64 false neg d = Panic SiteInt <-> IntLiteralOutOfI64 neg d.
+(** STORE e FOR c PAYLOAD {"a":"}"} : the brace inside the string is data *)
+Example store_brace_in_string :
+  parse_command_cur [83;84;79;82;69;32;101;32;70;79;82;32;99;32;80;65;89;76;79;65;68;32;123;34;97;34;58;34;125;34;125]
+  = POk (CStore [101] [99] [123;34;97;34;58;34;125;34;125]).
+Proof. vm_compute. reflexivity. Qed.
+
+(** A one-member object whose key and value are string literals without quote or backslash is
+    matched as a block whatever braces the strings contain (before fced25a a '{' or '}' inside
+    the value changed where the block ended, or whether it matched at all). *)
+Definition clean_json_str (s : bytes) : bool := forallb (fun c => negb (c =? 34) && negb (c =? 92)) s.
+Definition member_block (k v : bytes) : bytes := 123 :: 34 :: k ++ 34 :: 58 :: 34 :: v ++ [34; 125].
+
+Lemma brace_end_string : forall f s r d, clean_json_str s = true ->
+  brace_end (S f) (34 :: s ++ 34 :: r) d = brace_end f r d.
 Proof.
-  intros neg d. unfold conv_i64, numfail, IntLiteralOutOfI64.
-  set (z := if neg then (- Z.of_N (digits_val d 0))%Z else Z.of_N (digits_val d 0)).
-  destruct ((-9223372036854775808 <=? z)%Z && (z <=? 9223372036854775807)%Z) eqn:E; split; intro H.
-  - discriminate.
-  - apply andb_prop in E as [E1 E2]. apply Z.leb_le in E1, E2. lia.
-  - apply andb_false_iff in E as [E|E]; apply Z.leb_gt in E; lia.
-  - auto.
+  intros f s r d Hs. cbn [brace_end]. change (34 =? 123) with false. change (34 =? 125) with false.
+  change (34 =? 34) with true. replace store_skips_strings with true by reflexivity. cbn [andb].
+  rewrite (json_str_end_clean s r Hs). reflexivity.
 Qed.
+
+Lemma brace_end_colon : forall f r d, brace_end (S f) (58 :: r) d = brace_end f r d.
+Proof. intros. cbn [brace_end]. change (58 =? 123) with false. change (58 =? 125) with false. change (58 =? 34) with false. rewrite andb_false_r. reflexivity. Qed.
+
+Lemma brace_end_close : forall f r, brace_end (S f) (125 :: r) 0 = Some r.
+Proof. intros. reflexivity. Qed.
+
+Lemma store_block_with_string : forall k v rest, clean_json_str k = true -> clean_json_str v = true ->
+  balanced_braces (member_block k v ++ rest) = Some (member_block k v, rest).
+Proof.
+  intros k v rest Hk Hv. unfold balanced_braces, member_block. cbn [app]. rewrite N.eqb_refl.
+  set (r := 34 :: (k ++ 34 :: 58 :: 34 :: v ++ [34; 125]) ++ rest).
+  assert (Hlen : (4 <= length r)%nat).
+  { unfold r. cbn [length]. rewrite !app_length. cbn [length]. rewrite app_length. cbn [length]. lia. }
+  assert (E : brace_end (length r) r 0 = Some rest).
+  { destruct (length r) as [|[|[|[|f]]]] eqn:L; try lia. unfold r.
+    rewrite <- !app_assoc. cbn [app]. rewrite (brace_end_string _ k _ _ Hk), brace_end_colon.
+    rewrite <- !app_assoc. cbn [app]. rewrite (brace_end_string _ v _ _ Hv). apply brace_end_close. }
+  rewrite E. f_equal. f_equal.
+  change (123 :: r) with ((123 :: 34 :: k ++ 34 :: 58 :: 34 :: v ++ [34; 125]) ++ rest).
+  rewrite app_length, Nat.add_sub.
+  rewrite firstn_app, Nat.sub_diag, firstn_all. cbn [firstn]. apply app_nil_r.
+Qed.
+
+Example store_block_example :
+  clean_json_str [125; 123; 123] = true /\ member_block [97] [125; 123; 123] = [123;34;97;34;58;34;125;123;123;34;125].
+Proof. split; reflexivity. Qed.
